@@ -54,12 +54,12 @@ fn gen_states<T: TElem>(g: &mut Sm64, n_chains: usize, len: usize, n_params: usi
     let mut locs = vec![];
     let mut scales = vec![];
     for _ in 0..n_params {
-        // (integers: sometimes magnitudes whose squares exceed the range of 32-bit integers)
-        // (floats: sometimes scales near the ends of what single-precision squares can hold - any
-        // location/scale within f32 conditioning is in scope)
-        let s = if T::INT && g.chance(0.3) { g.uniform(5_000.0, 30_000.0) } else if T::INT { g.uniform(2.0, 40.0) } else if g.chance(0.12) { g.log_uniform(1e12, 3e16) } else if g.chance(0.1) { g.log_uniform(1e-16, 1e-12) } else if g.chance(0.3) { g.log_uniform(1e-6, 1e4) } else { g.log_uniform(1e-2, 1e2) };
-        scales.push(s);
         let ratio = if g.chance(0.7) { g.uniform(-3.0, 3.0) } else { g.uniform(-30.0, 30.0) };
+        // (integers: sometimes magnitudes whose squares exceed the range of 32-bit integers)
+        // (floats: sometimes scales near the ends of what single-precision arithmetic can hold, kept
+        // small enough that the sum of squares of the whole sequence, len * x^2, stays below 1e37)
+        let s = if T::INT && g.chance(0.3) { g.uniform(5_000.0, 30_000.0) } else if T::INT { g.uniform(2.0, 40.0) } else if g.chance(0.12) { g.log_uniform(1e12, 3e16).min((1e37 / len as f64).sqrt() / (ratio.abs() + 6.0)) } else if g.chance(0.1) { g.log_uniform(1e-16, 1e-12) } else if g.chance(0.3) { g.log_uniform(1e-6, 1e4) } else { g.log_uniform(1e-2, 1e2) };
+        scales.push(s);
         locs.push(if T::INT && s > 1000.0 { (ratio.abs().min(3.0) + 3.0) * s } else if T::INT { (ratio.abs() * s).min(2000.0) + 3.0 * s } else { ratio * s });
     }
     let stay = g.uniform(0.0, 0.8); // probability that a state repeats (a "rejection")
@@ -247,8 +247,9 @@ fn chain_case<T: TElem>(ctx: &Ctx, rep: &mut Report, case: u64, g: &mut Sm64) {
         }
         // conditioning-aware tolerance: the trackers hold running f32 means of x and x^2
         let eps = f32::EPSILON as f64;
-        let m_all = chains.iter().flatten().sum::<f64>() / (n_chains * len) as f64;
-        let cond = (m_all * m_all + wv.w) / wv.w;
+        // (per chain: a chain far from the others has a large |mean|/sd even when the grand mean is small)
+        let m2_max = chains.iter().map(|c| { let m = c.iter().sum::<f64>() / len as f64; m * m }).fold(0.0f64, f64::max);
+        let cond = (m2_max + wv.w) / wv.w;
         // (a few ulps of the running sums times the conditioning, whatever the length: at least 16 steps' worth)
         let tol = 2e-3 * wv.rhat + 8.0 * (len.max(16) as f64) * eps * cond * wv.rhat + 1e-6;
         if tol > 0.25 * wv.rhat {
